@@ -88,7 +88,7 @@ def generate(tier, rng):
                 cases.append(dict(stream="malformed", kind="import", dims=ds, values=nz, layout=lay, relabel=[i, j]))
     # values that coincide with the items of an integer dimension of the array (counts 0, 1, 2 over ages 0, 1, 2), all of them,
     # some of them, one of them: the value column must not be taken for a column of that dimension
-    for names in (["A"], ["A", "r"], ["r", "A"], ["A", "m", "s"]):
+    for names in (["A"], ["A", "r"], ["r", "A"], ["A", "m", "s"], ["r", "Z"], ["Z", "m"]):
         ds = [DIMPOOL[x] for x in names]
         n = int(np.prod([len(d["items"]) for d in ds]))
         for pat, vals in (("all items", [str((i * 2 + i // 3) % 3) for i in range(n)]), ("some items", [str(i % 2) for i in range(n)]),
